@@ -31,7 +31,7 @@ def shapes(tier):
     """(sig, text, info)"""
     out = []
     rmax = 2 if tier == 'quick' else 4
-    add_patterns = [[], ['p'], ['p', 'p'], ['g2'], ['p', 'g2'], ['g1', 'p'], ['g2', 'g1'], ['g2v'], ['p', 'g1v']]
+    add_patterns = [[], ['p'], ['p', 'p'], ['g2'], ['p', 'g2'], ['g1', 'p'], ['g2', 'g1'], ['g2v'], ['p', 'g1v'], ['g2o'], ['g1o', 'g2'], ['g2d', 'p']]
     if tier != 'quick':
         add_patterns += [['p', 'p', 'p'], ['g3'], ['g2', 'p', 'g1'], ['g1', 'g1', 'g1'], ['p', 'g3', 'p', 'p'], ['p', 'p', 'p', 'p', 'p', 'p'], ['g2v'], ['p', 'g1v', 'g2']]
     for cont, implied, nested in itertools.product(['SEQUENCE', 'SET', 'CHOICE', 'ENUMERATED'], [False, True], [False, True]):
@@ -63,8 +63,15 @@ def shapes(tier):
                                 n = int(a[1])
                                 names = []
                                 ms = []
-                                for _ in range(n):
-                                    ms.append(member(k))
+                                for j_ in range(n):
+                                    # 'o': every component of the group OPTIONAL, 'd': DEFAULT / OPTIONAL mixed (the group as a whole is
+                                    # still ONE optional member); CHOICE alternatives have no optionality
+                                    sfx = ''
+                                    if cont != 'CHOICE' and a.endswith('o'):
+                                        sfx = ' OPTIONAL'
+                                    elif cont != 'CHOICE' and a.endswith('d'):
+                                        sfx = {'BOOLEAN': ' DEFAULT TRUE', 'INTEGER': ' DEFAULT 5'}.get(TYPES[k % 3], ' OPTIONAL') if j_ % 2 == 0 else ' OPTIONAL'
+                                    ms.append(member(k) + sfx)
                                     names.append(f"m{k}")
                                     k += 1
                                 # VersionNumber ::= number ":" - two lexical items, any layout between them (rotated over the shapes)
